@@ -2,6 +2,7 @@
 import itertools
 import numpy as np
 from . import common as C
+from .prop_c01 import _fname
 
 PID = 'C16'
 PARALLEL = False
@@ -52,7 +53,7 @@ def impl(case):
         with C.scratch_dir() as d:
             paths, blocks, row0 = [], [], 0
             for i, s in enumerate(case['sizes']):
-                p = d / ('f%d.bin' % i)
+                p = d / _fname(case.get('names', 'idx'), i)
                 blocks.append((np.arange(row0, row0 + s, dtype=np.int16)[:, None] * 3 +
                                np.arange(case['nch'], dtype=np.int16)[None, :]).astype(np.int16))
                 row0 += s
@@ -304,7 +305,7 @@ def gen(tier, rng):
                     kk = sum(sizes) * 7 + cs + k
                     # header offsets: none, less than a row, exactly one row, several rows
                     yield dict(p=PID, op='reader_flat', sizes=list(sizes), cs=cs, nch=nch,
-                               offset=[0, 1, 2 * nch, 2 * nch * 3, 4, 0][kk % 6])
+                               offset=[0, 1, 2 * nch, 2 * nch * 3, 4, 0][kk % 6], names=['idx', 'rev', 'nat'][kk % 3])
     for n in range(1, 12):
         for cs in (1, 2, 3, 5, 7, 20):
             if _cs_ok(cs):
